@@ -68,6 +68,10 @@ func generateICMPRequestID() uint64 {
 // The ephPrivKey is zeroed after use.
 // Returns an error if the remote key is zero (every ICMP_OPEN we send offers a key, so an
 // acknowledgement without one would silently downgrade the session to plaintext) or if ECDH fails.
+// errICMPKeyExchangeDone reports an ICMP_OPEN_ACK for an open whose key
+// exchange has already taken place.
+var errICMPKeyExchangeDone = errors.New("ICMP open acknowledgement repeated")
+
 func deriveICMPSessionKey(
 	ephPrivKey *[32]byte,
 	ephPubKey [32]byte,
@@ -77,6 +81,14 @@ func deriveICMPSessionKey(
 	var zeroKey [protocol.EphemeralKeySize]byte
 	if remotePubKey == zeroKey {
 		return nil, errors.New("ICMP open refused: acknowledgement carries no encryption key")
+	}
+
+	if *ephPrivKey == zeroKey {
+		// The private key is wiped as soon as it has been used: this is a
+		// repeated or replayed acknowledgement. Running the exchange again
+		// with the wiped key would yield a session key that anyone who has
+		// seen the two public keys can compute.
+		return nil, errICMPKeyExchangeDone
 	}
 
 	sharedSecret, err := crypto.ComputeECDH(*ephPrivKey, remotePubKey)
@@ -212,6 +224,9 @@ func (a *Agent) handleICMPOpenAck(peerID identity.AgentID, frame *protocol.Frame
 		}
 
 		sessionKey, err := deriveICMPSessionKey(&ingress.EphemeralPrivKey, ingress.EphemeralPubKey, ack.EphemeralPubKey, ack.RequestID)
+		if err == errICMPKeyExchangeDone {
+			return
+		}
 		if err != nil {
 			ingress.closePendingOpen(err)
 			return
@@ -243,6 +258,9 @@ func (a *Agent) handleICMPOpenAck(peerID identity.AgentID, frame *protocol.Frame
 	}
 
 	sessionKey, err := deriveICMPSessionKey(&wsSession.EphemeralPrivKey, wsSession.EphemeralPubKey, ack.EphemeralPubKey, ack.RequestID)
+	if err == errICMPKeyExchangeDone {
+		return
+	}
 	if err != nil {
 		wsSession.closePendingOpenWS(err)
 		return
